@@ -19,6 +19,7 @@ import (
 	"os/exec"
 	"path/filepath"
 	"runtime"
+	"runtime/pprof"
 	"sort"
 	"strconv"
 	"strings"
@@ -188,6 +189,11 @@ type workerLine struct {
 }
 
 func cmdWorker(a []string) {
+	if pf := os.Getenv("FGSIM_CPUPROFILE"); pf != "" {
+		f, _ := os.Create(pf)
+		pprof.StartCPUProfile(f)
+		defer pprof.StopCPUProfile()
+	}
 	p := props.Registry[a[0]]
 	tier := a[1]
 	seed, _ := strconv.ParseUint(a[2], 10, 64)
